@@ -292,6 +292,20 @@ def c16(tier):
             for m in [m for m in a if a[m] != b.get(m)][:5]:
                 chk.add_violation(f"profile divergence on an accepted out-of-range declaration: {m}", "profile_divergence",
                                   f"observation digests differ between profiles for {m}", {"engine": "digest", "machine": m})
+    # range lists naming a bit twice: accepted declarations whose values no property determines - panics and profile agreement only
+    so = sets.selfoverlap_structs(tier)
+    reps = {}
+    for prof in ('checked', 'fast'):
+        wso = build_set(chk, f"selfov-{tier}", so, prof)
+        if wso:
+            reps[prof] = B.run(wso, prof, 'sweep', ['--ops', 'all', '--full-n', 16, '--full-w', 8, '--panic-only', 1], out_name=f"report-C16-selfov-{prof}.json")
+            chk.add_report(reps[prof], f"sweep:selfoverlap:{prof}")
+    if len(reps) == 2:
+        a, b = reps['checked']['digests'], reps['fast']['digests']
+        chk.extra["digest_pairs_compared"] = chk.extra.get("digest_pairs_compared", 0) + len(a)
+        for m in [m for m in a if a[m] != b.get(m)][:5]:
+            chk.add_violation(f"profile divergence on a self-overlapping range list: {m}", "profile_divergence",
+                              f"observation digests differ between profiles for {m}", {"engine": "digest", "machine": m})
     # enums and constants in both profiles
     eds = sets.enum_set(t)
     for prof in ('checked', 'fast'):
